@@ -225,8 +225,8 @@ var (
 	paths    = []string{"/", "/a", "/a/b", "/A"}
 	dsts     = []string{"http://10.0.0.1:80/", "http://10.0.0.2:8080/", "https://h3.example:443/base", "http://10.0.0.4:80/?x=1",
 		"HTTP://10.0.0.5:80/", "http://10.0.0.6:80/café", "http://10.0.0.7:80/x#", "http://H8.Example:80/a^b"} // the last ones are not in net/url's own rendering
-	tagPool  = []string{"a", "b", "c", `d\e`, "ü", "v1.2"}
-	optPool  = []string{"strip=/a", "prepend=/x", "proto=https", "tlsskipverify=true", "host=dst", "flag", "k=v=w", "auth=basic1"}
+	tagPool = []string{"a", "b", "c", `d\e`, "ü", "v1.2"}
+	optPool = []string{"strip=/a", "prepend=/x", "proto=https", "tlsskipverify=true", "host=dst", "flag", "k=v=w", "auth=basic1"}
 )
 
 func mixCase(t *rapid.T, s string) string {
